@@ -1105,6 +1105,31 @@ func (ex *Exec) sliceOp(fr *frame, in *ssa.Slice) Value {
 			panic(goPanic{"slice bounds out of range (string)", ex.pos2(in)})
 		}
 		return c[lo:hi]
+	case *Term:
+		// a symbolic string cut at positions that are syntactically atom boundaries (plus constant offsets)
+		t := c
+		var lowT, highT *Term
+		if in.Low != nil {
+			lowT = intTerm(ex.get(fr, in.Low))
+		}
+		if in.High != nil {
+			highT = intTerm(ex.get(fr, in.High))
+		}
+		if highT != nil {
+			l, _, ok := splitAt(t, highT)
+			if !ok {
+				panic(pathAbort{"unsupported: symbolic string slice (upper bound)"})
+			}
+			t = l
+		}
+		if lowT != nil && !(lowT.Op == "ci" && lowT.I == 0) {
+			_, r, ok := splitAt(t, lowT)
+			if !ok {
+				panic(pathAbort{"unsupported: symbolic string slice (lower bound)"})
+			}
+			t = r
+		}
+		return lower(t)
 	}
 	panic(pathAbort{fmt.Sprintf("unsupported: slice of %T", x)})
 }
